@@ -228,9 +228,30 @@ fn borderline_mask(rng: &mut Rng, total: usize, n_normal: usize, scroll: bool) -
   mask_from_codes(&v)
 }
 
+// a key count at the threshold that includes keys in bit 63 of a mask word (F5 = 63, COMPOSE = 127, F21 = 191): the
+// heuristic counts the set bits of the hex digits, while parse_mask_hex never reads bit 63 of a word
+fn borderline63_mask(rng: &mut Rng, total: usize, n_normal: usize) -> String {
+  let mut set: BTreeSet<u32> = BTreeSet::new();
+  let mut normal = NORMAL.to_vec();
+  rng.shuffle(&mut normal);
+  for c in normal.iter().take(n_normal.min(10)) { set.insert(*c); }
+  let hi = [63u32, 127, 191];
+  let k = 1 + rng.below(3);
+  for c in hi.iter().take(k) { set.insert(*c); }
+  let mut guard = 0;
+  while set.len() < total && guard < 10000 {
+    guard += 1;
+    let c = 2 + rng.below(250) as u32;
+    if NORMAL.contains(&c) || c == 178 || c % 64 == 63 { continue; }
+    set.insert(c);
+  }
+  let v: Vec<u32> = set.into_iter().collect();
+  mask_from_codes(&v)
+}
+
 fn mutate_mask(rng: &mut Rng, mask: &str, stats: &mut BTreeMap<String, u64>) -> String {
   let mut toks: Vec<String> = mask.split(' ').map(|s| s.to_string()).collect();
-  let which = rng.below(20);
+  let which = rng.below(22);
   let tag;
   let res = match which {
     0 => { tag = "upper_all"; mask.to_uppercase() }
@@ -252,6 +273,7 @@ fn mutate_mask(rng: &mut Rng, mask: &str, stats: &mut BTreeMap<String, u64>) -> 
     16 => { tag = "borderline20"; let nn = 3 + rng.below(3); borderline_mask(rng, 20, nn, false) }
     17 => { tag = "drop_token"; if toks.len() > 1 { let i = rng.below(toks.len()); toks.remove(i); } toks.join(" ") }
     18 => { tag = "mixed_case_digit"; mask.replacen('f', "F", 1 + rng.below(3)) }
+    19 | 20 => { tag = "borderline63"; let t = 19 + rng.below(4); let nn = 3 + rng.below(3); borderline63_mask(rng, t, nn) }
     _ => { tag = "nonascii"; let i = rng.below(toks.len()); toks[i] = format!("{}é", toks[i]); toks.join(" ") }
   };
   *stats.entry(format!("mask_{}", tag)).or_insert(0) += 1;
